@@ -1,10 +1,106 @@
-import Martian.Util
-/-! STUB — property C15 is not built yet. -/
+import Martian.Model.MessageView
+/-! Driver for C15: `snap`, `sections`, `decode`, `twin` (see go/internal/c15). -/
 namespace Martian.Drv.C15
-open Martian
+open Martian Martian.Go Martian.MessageView
 
-abbrev St := Unit
-def init : St := ()
-def step (s : St) (_toks : List String) : St × String := (s, "bad-op")
+def unhexList (sep : String) (s : String) : Option (List Bytes) :=
+  if s = "-" then some [] else (s.splitOn sep).mapM unhex
+
+def parseKV (s : String) : Option KV :=
+  match s.splitOn ":" with
+  | [k, v] => do let k ← unhex k; let v ← unhex v; pure (k, v)
+  | _ => none
+
+/-- `none` = nil map, `-` = empty map. -/
+def parseKVs (s : String) : Option (Option (List KV)) :=
+  if s = "none" then some none
+  else if s = "-" then some (some [])
+  else ((s.splitOn ",").mapM parseKV).map some
+
+/-- A body token is hex, `nil`, or a generator descriptor (`gen:…`, twin ops only: the model does
+not look into the body there). -/
+def parseBody (s : String) : Option (Option Bytes) :=
+  if s = "nil" then some none
+  else if s.startsWith "gen:" then some (some [])
+  else (unhex s).map some
+
+/-- kind method url major minor code status host te cl hdrs body trailers chunks decl -/
+def parseMsg (t : List String) : Option Msg :=
+  match t with
+  | [kind, method, url, major, minor, code, status, host, te, cl, hdrs, body, trailers, _chunks, _decl] => do
+    let method ← unhex method
+    let url ← unhex url
+    let major ← major.toNat?
+    let minor ← minor.toNat?
+    let code ← code.toNat?
+    let status ← unhex status
+    let host ← unhex host
+    let te ← unhexList "," te
+    let cl ← cl.toInt?
+    let hdr ← parseKVs hdrs
+    let body ← parseBody body
+    let trailer ← parseKVs trailers
+    pure { isReq := kind == "req", method, url, major, minor, code, status, host, te, cl,
+           hdr := hdr.getD [], body, trailer }
+  | _ => none
+
+abbrev St := Option (View × Msg)
+def init : St := none
+
+def parseOpts (skip cts : String) : Option Opts :=
+  match skip with
+  | "0" => some { skipBody := false, cts := [] }
+  | "1" => some { skipBody := true, cts := [] }
+  | "ct" => (unhexList "+" cts).map fun c => { skipBody := true, cts := c }
+  | _ => none
+
+def parseCapture (s : String) : Option Capture :=
+  if s = "all" then some .all
+  else if s = "none" then some .nothing
+  else if s.startsWith "in:" then (unhexList "+" (s.drop 3).toString).map .optIn
+  else if s.startsWith "out:" then (unhexList "+" (s.drop 4).toString).map .optOut
+  else none
+
+def parseLogger (l o1 o2 : String) : Option Logger :=
+  match l with
+  | "har" => do let a ← parseCapture o1; let b ← parseCapture o2; pure (.har a b)
+  | "marbl" => some .marbl
+  | "text" => some (.text (o1 == "1") (o2 == "1"))
+  | "snapshot" =>
+    if o1 = "0" then some (.snapshot { skipBody := false, cts := [] })
+    else if o1 = "1" then some (.snapshot { skipBody := true, cts := [] })
+    else if o1.startsWith "ct:" then (unhexList "+" (o1.drop 3).toString).map fun c => .snapshot { skipBody := true, cts := c }
+    else none
+  | _ => none
+
+def step (s : St) (toks : List String) : St × String :=
+  match toks with
+  | "snap" :: _mode :: skip :: cts :: rest =>
+    match parseOpts skip cts, parseMsg rest with
+    | some o, some m =>
+      let v := snapshot o m
+      (some (v, m), s!"ok {v.bodyoff} {v.traileroff} {hex v.message}")
+    | _, _ => (s, "bad-op")
+  | ["sections"] =>
+    match s with
+    | some (v, _) => (s, s!"{hex (headerReader v)} {hex (bodyReader v)} {hex (trailerReader v)}")
+    | none => (s, "no-snapshot")
+  | ["decode", infl] =>
+    match s with
+    | some (v, m) =>
+      -- the decompressors are a parameter: their value on the message body comes with the op
+      let inflate : Bytes → Bytes → Option Bytes := fun _ x =>
+        if infl = "err" || infl = "na" || some x != m.body then none else unhex infl
+      match decodeBody inflate v with
+      | some b => (s, s!"ok {hex b}")
+      | none => (s, "err")
+    | none => (s, "no-snapshot")
+  | "twin" :: l :: o1 :: o2 :: skip :: _mode :: rest =>
+    match parseLogger l o1 o2, parseMsg rest with
+    | some lg, some m =>
+      let r := logMsg lg (skip == "1") m
+      (s, (if r.1 == m then "same" else "differs") ++ " rec=" ++ (if r.2.isSome then "1" else "0"))
+    | _, _ => (s, "bad-op")
+  | _ => (s, "bad-op")
 
 end Martian.Drv.C15
